@@ -1041,6 +1041,24 @@ func runC15(r *Run, verifDir string) {
 			})
 		}
 	}
+	// who may clear: the placeholder is reset only where an item failed (handleBatchItemError); a reset anywhere else
+	// makes later items lose what an earlier item stored
+	nClr := 0
+	for _, fn := range pkgFuncs(p, "kmipserver") {
+		allInstrs(fn, func(in ssa.Instruction) {
+			c := callOf(in)
+			if c == nil || !callID(c).is(srvPath, "", "ClearIdPlaceholder") {
+				return
+			}
+			nClr++
+			key := fmt.Sprintf("%s/clears#%d", fnKey(fn), nClr)
+			if fnKey(fn) == "kmipserver.handleBatchItemError" {
+				r.OK("C15.O3", key, in.Pos(), "the placeholder is cleared where an item failed")
+			} else {
+				r.Bad("C15.O3", key, in.Pos(), "%s clears the ID placeholder outside the failure path of an item: later items of the request no longer observe the value an earlier item stored", fnKey(fn))
+			}
+		})
+	}
 	c15O5(r)
 	// O4
 	hr := p.Func("kmipserver", "BatchExecutor", "handleRequest")
